@@ -771,6 +771,43 @@ def _defined_in(v, fnpath, blocks):
     return bool(hit)
 
 
+def _canon_phi(an, v, busy=None):
+    """v with joins that always carry one value replaced by that value: a join all of whose inputs (ignoring itself and
+    after the same simplification of the inputs) are equal IS that input - a variable carried unchanged around a loop or
+    through both arms of a branch"""
+    if not isinstance(v, tuple) or not v or v[0] != "phi":
+        return v
+    memo = an.__dict__.setdefault("_canon_phi", {})
+    if v in memo:
+        return memo[v]
+    if busy is None:
+        busy = set()
+    if v in busy:
+        return v
+    busy.add(v)
+    vals = set()
+    for e in an.cfg.in_edges[v[1]]:
+        st = an.out_state.get(e.src)
+        if st is None:
+            continue
+        x = an.read(st, v[2])
+        if x == v:
+            continue
+        x = _canon_phi(an, x, busy)
+        if x == v:
+            continue
+        vals.add(x)
+    busy.discard(v)
+    r = vals.pop() if len(vals) == 1 else v
+    memo[v] = r
+    return r
+
+
+def _trivial_phi(an, p, depth=0):
+    r = _canon_phi(an, p)
+    return None if r == p else r
+
+
 def _prove_inductive(self, fn, goal, node, facts, depth=0, hyps=()):
     """prove goal<=0 at node by case split over join phis and as an inductive invariant of the
     loop whose phi values it mentions.  `hyps` are induction hypotheses carried along."""
@@ -789,6 +826,18 @@ def _prove_inductive(self, fn, goal, node, facts, depth=0, hyps=()):
         walk(a, f)
     if not phis:
         return False
+    # ---- a join whose inputs are all the same value (or itself: a variable carried unchanged around a loop) IS that value
+    triv = {}
+    for p in phis:
+        w = _trivial_phi(an, p)
+        if w is not None:
+            triv[p] = w
+    if triv and all(p in lin_atoms(goal) for p in triv):
+        g2 = lin_subst(goal, triv, P)
+        if g2 != goal:
+            if P.prove_le0(g2, facts):
+                return True
+            return self.prove_inductive(fn, g2, node, facts, depth, hyps)
     # ---- case split over a join (non-loop) phi
     joins = sorted({p[1] for p in phis if p[1] not in loops}, key=lambda h: -len(cfg.dominators(h)))
     for J in joins:
@@ -797,32 +846,67 @@ def _prove_inductive(self, fn, goal, node, facts, depth=0, hyps=()):
         mine = {p for p in phis if p[1] == J}
         if not all(p in lin_atoms(goal) for p in mine):
             continue  # nested inside a non-linear atom
-        good = True
-        n_in = 0
-        for e in cfg.in_edges[J]:
-            st = an.out_state.get(e.src)
-            if st is None:
-                continue
-            n_in += 1
-            mapping = {p: an.read(st, p[2]) for p in mine}
-            g2 = lin_subst(goal, mapping, P)
-            fe = self.facts(fn, e.node) + list(hyps)
-            # facts established after the join about the phi hold for the incoming value too
-            for f in facts:
-                if f[0] == "le" and (lin_atoms(f[1]) & mine):
-                    fe.append(("le", lin_subst(f[1], mapping, P)))
-                elif f[0] in ("nec", "eqc") and f[1] in mine:
-                    fe.append((f[0], mapping[f[1]], f[2]))
-            if P.infeasible(fe):
-                continue        # this incoming edge cannot reach the site
-            if P.prove_le0(g2, fe):
-                continue
-            if self.prove_inductive(fn, g2, e.node, fe, depth + 1, hyps):
-                continue
-            good = False
-            break
-        if good and n_in:
-            return True
+        for flat in (False, True):
+            good = True
+            n_in = 0
+            ways = []
+            for e in cfg.in_edges[J]:
+                st = an.out_state.get(e.src)
+                if st is None:
+                    continue
+                mp = {p: an.read(st, p[2]) for p in mine}
+                ways.append((e, mp, []))
+            if flat:
+                # second attempt: when exactly one joined value is at stake and what flows in is itself the value of an
+                # earlier (non-loop) join, that join's ways in are taken instead, so an if / else-if ladder is one flat
+                # case split instead of a recursion as deep as the ladder
+                if len(mine) != 1:
+                    break
+                (p0,) = tuple(mine)
+                grew_any = False
+                for _ in range(40):
+                    grew = False
+                    nw = []
+                    for e, mp, extra in ways:
+                        v = mp[p0]
+                        last_src = cfg.edges[extra[-1] - cfg.nblocks].src if extra else e.src
+                        if v[0] == "phi" and v[1] not in loops and v[1] != J and len(nw) + len(ways) < 80 and \
+                                cfg.dominates(v[1], last_src):
+                            for e2 in cfg.in_edges[v[1]]:
+                                st2 = an.out_state.get(e2.src)
+                                if st2 is None:
+                                    continue
+                                nw.append((e, {p0: an.read(st2, v[2])}, extra + [e2.node]))
+                            grew = grew_any = True
+                        else:
+                            nw.append((e, mp, extra))
+                    ways = nw
+                    if not grew:
+                        break
+                if not grew_any:
+                    break
+            for e, mapping, extra in ways:
+                n_in += 1
+                g2 = lin_subst(goal, mapping, P)
+                fe = self.facts(fn, e.node) + list(hyps)
+                for x in extra:
+                    fe = fe + self.facts(fn, x)
+                # facts established after the join about the phi hold for the incoming value too
+                for f in facts:
+                    if f[0] == "le" and (lin_atoms(f[1]) & mine):
+                        fe.append(("le", lin_subst(f[1], mapping, P)))
+                    elif f[0] in ("nec", "eqc") and f[1] in mine:
+                        fe.append((f[0], mapping[f[1]], f[2]))
+                if P.infeasible(fe):
+                    continue        # this incoming edge cannot reach the site
+                if P.prove_le0(g2, fe):
+                    continue
+                if self.prove_inductive(fn, g2, e.node, fe, depth + 1, hyps):
+                    continue
+                good = False
+                break
+            if good and n_in:
+                return True
     # ---- loop induction
     headers = sorted({p[1] for p in phis if p[1] in loops}, key=lambda h: -len(cfg.dominators(h)))
     for H in headers:
